@@ -165,7 +165,15 @@ fn g_trig(rng: &mut Rng, _tier: Tier) -> Case {
     } else {
         gen::angle(rng)
     };
-    c.push_f(&[x, rng.dyadic(-1.0, 1.0), rng.log_uniform(-3.0, 3.0), rng.log_uniform(-3.0, 3.0)]);
+    // atan2 arguments: ordinary magnitudes, or (one case in three) a common tiny / huge
+    // scale 10^-30..10^30 with an ordinary ratio -- atan2 depends on the ratio only
+    let (ya, xa) = if rng.chance(1, 3) {
+        let sc = 10f64.powf(rng.uniform(-30.0, 30.0));
+        (rng.log_uniform(-1.0, 1.0) * sc, rng.log_uniform(-1.0, 1.0) * sc)
+    } else {
+        (rng.log_uniform(-3.0, 3.0), rng.log_uniform(-3.0, 3.0))
+    };
+    c.push_f(&[x, rng.dyadic(-1.0, 1.0), ya, xa]);
     c.push_k(&[deg as i64]);
     c.nontrivial = x != 0.0;
     c
@@ -518,7 +526,7 @@ pub fn clauses() -> Vec<Clause> {
     ]
 }
 
-pub const RULE: &str = "modular clauses: angles turn*(n/d)+r with d in {1,2,3,4,6,8,12}, |n/d| <= 3 and r = 0, +-10^-k or a small rational, in both units, evaluated exactly (a turn of Rad is the dyadic rational 2*PI_f64); non-trivial = both offsets non-zero and a != b. Trigonometry: angles on a 2^-20 grid in [-4pi,4pi] / [-720,720] degrees plus special values, ratios in [-1,1], atan2 arguments log-uniform in 10^-3..10^3. Native: round trip on 2^-100..2^100 (f32) / 2^-1000..2^1000 (f64) log-uniform, range membership on random and adversarial values (tiny negatives, exact multiples of the turn, +-MAX, next_up(k*pi)); thorough tier: every finite f32 bit pattern. Distinct = distinct input tuples.";
+pub const RULE: &str = "modular clauses: angles turn*(n/d)+r with d in {1,2,3,4,6,8,12}, |n/d| <= 3 and r = 0, +-10^-k or a small rational, in both units, evaluated exactly (a turn of Rad is the dyadic rational 2*PI_f64); non-trivial = both offsets non-zero and a != b. Trigonometry: angles on a 2^-20 grid in [-4pi,4pi] / [-720,720] degrees plus special values, ratios in [-1,1], atan2 arguments log-uniform in 10^-3..10^3, one case in three with a common scale 10^-30..10^30. Native: round trip on 2^-100..2^100 (f32) / 2^-1000..2^1000 (f64) log-uniform, range membership on random and adversarial values (tiny negatives, exact multiples of the turn, +-MAX, next_up(k*pi)); thorough tier: every finite f32 bit pattern. Distinct = distinct input tuples.";
 pub const ASSUME: &[&str] = &[
     "the round-trip bound of 4 machine epsilons is checked on the normal range only (subnormal or overflowing intermediates lose relative accuracy by the nature of floating point)",
     "trigonometric plumbing is compared with the harness' own interval functions of the radian measure; glibc within 4 ulp",
